@@ -295,12 +295,48 @@ def r8_serde_table(rep, facts):
     d = "<toml_edit::de::value::ValueDeserializer as serde::de::Deserializer<'de>>::deserialize_any"
     b = facts.body(d)
     loc = facts.loc(b)
+    # decided by evaluating deserialize_any on one node of every kind with the visitor calls recorded (the walk into the array / table
+    # deserializers is followed); the reading of the match below is the fallback
+    semantic = False
+    try:
+        from .den import RecInterp, EvalPanic, Evaluator
+        pn = [p_['name'] for p_ in b['params'] if p_.get('k') == 'p_bind']
+        V, I = 'toml_edit::value::Value::', 'toml_edit::item::Item::'
+        fm = lambda x: ('struct', 'toml_edit::repr::Formatted', {'value': x, 'repr': ('opaque',), 'decor': ('opaque',)})
+        box = lambda ty, field: ('struct', ty, {field: (), 'span': ('opaque',)})
+        cases = {'None': (('ctor', I + 'None'), 'visit_none', None), 'String': (('ctor', I + 'Value', (('ctor', V + 'String', (fm('text'),)),)), 'visit_string', 'text'),
+                 'Integer': (('ctor', I + 'Value', (('ctor', V + 'Integer', (fm(7),)),)), 'visit_i64', 7), 'Float': (('ctor', I + 'Value', (('ctor', V + 'Float', (fm(1.5),)),)), 'visit_f64', 1.5),
+                 'Boolean': (('ctor', I + 'Value', (('ctor', V + 'Boolean', (fm(True),)),)), 'visit_bool', True),
+                 'Datetime': (('ctor', I + 'Value', (('ctor', V + 'Datetime', (fm(('a date-time',)),)),)), 'visit_map', 'DatetimeDeserializer'),
+                 'Array': (('ctor', I + 'Value', (('ctor', V + 'Array', (box('toml_edit::array::Array', 'values'),)),)), 'visit_seq', 'ArraySeqAccess'),
+                 'InlineTable': (('ctor', I + 'Value', (('ctor', V + 'InlineTable', (box('toml_edit::inline_table::InlineTable', 'items'),)),)), 'visit_map', 'TableMapAccess'),
+                 'Table': (('ctor', I + 'Table', (box('toml_edit::table::Table', 'items'),)), 'visit_map', 'TableMapAccess'),
+                 'ArrayOfTables': (('ctor', I + 'ArrayOfTables', (box('toml_edit::array_of_tables::ArrayOfTables', 'values'),)), 'visit_seq', 'ArraySeqAccess')}
+        hooks = {'visit_none', 'visit_string', 'visit_str', 'visit_borrowed_str', 'visit_i64', 'visit_u64', 'visit_f64', 'visit_bool', 'visit_map', 'visit_seq', 'visit_some', 'visit_unit',
+                 'visit_enum', 'visit_newtype_struct', 'visit_i32', 'visit_u32', 'visit_f32', 'visit_char', 'visit_bytes'}
+        rows = {}
+        for name, (item, want_hook, want_arg) in cases.items():
+            it = RecInterp(Evaluator(facts), hooks, stubs={'span': ('opaque',)})
+            it.val(b['body'], {pn[0]: ('struct', 'ValueDeserializer', {'input': item, 'validate_struct_keys': False}), pn[1]: ('opaque',), '@assign': {}})
+            rows[name] = [(nm, (a[0] if not isinstance(a[0], tuple) else last_seg(a[0][1]) if len(a[0]) > 1 and isinstance(a[0][1], str) else a[0]) if a else None) for nm, a in it.calls]
+        for name, (item, want_hook, want_arg) in cases.items():
+            got = rows[name]
+            ok = got == [(want_hook, want_arg)]
+            rep.check(R, f'deserialize_any|{name}', ok, f'{name} -> {want_hook}({want_arg if want_arg is not None else ""})',
+                      f'`{name}` is presented to serde through {got}, expected exactly {want_hook}({want_arg if want_arg is not None else ""})', loc)
+        rep.ok(R, 'deserialize_any|Datetime|map-access', 'visit_map(DatetimeDeserializer::new(..)) (see the Datetime row)', loc)
+        rep.ok(R, 'deserialize_any|all-variants', f'{len(cases)} node kinds evaluated', loc)
+        semantic = True
+    except (Unanalysable, EvalPanic, KeyError, IndexError, TypeError) as e:
+        rep.notes.append(f'ValueDeserializer::deserialize_any could not be evaluated ({e}); its match is read structurally.')
     ms = [n for n in walk(b['body']) if n.get('k') == 'match' and n.get('src') == 'Normal']
     m = None
     for x in ms:
         if len(x['arms']) >= 8:
             m = x
-    if m is None:
+    if semantic:
+        pass
+    elif m is None:
         rep.incomplete(R, 'deserialize_any|match', 'variant dispatch not found', loc)
     else:
         seen = set()
@@ -409,7 +445,7 @@ def r9b_offset_values(rep, g, facts):
 
 def r9_wiring(rep, g, facts):
     R = rep.rule('C02/R9', 'date-time assembly wiring: every field of Time / Date / Datetime is initialised from the binding produced by the parser of '
-                 'that field, and the offset is sign * (hours * 60 + minutes)', floor=9)
+                 'that field (the offset value itself is R9b)', floor=8)
     # partial_time: Time { hour, minute, second, nanosecond }
     t = term(g, 'datetime::partial_time')
     loc = facts.loc(facts.body(P + 'datetime::partial_time'))
@@ -470,32 +506,7 @@ def r9_wiring(rep, g, facts):
             ok = names == {'date': 'date', 'time': 'time', 'offset': 'offset'} and seq_names[:1] == ['full_date'] and 'partial_time' in seq_names and 'time_offset' in seq_names
             detail = f'{names}, parsers {seq_names}'
     rep.check(R, 'date_time|Datetime fields', ok, detail, f'Datetime assembly changed: {detail}', loc)
-    # time_offset: sign * (hours * 60 + minutes)
-    t = term(g, 'datetime::time_offset')
-    loc = facts.loc(facts.body(P + 'datetime::time_offset'))
-    maps = [x for x in g.subterms(t) if x['op'] == 'map' and x['kind'] == 'map']
-    okv = False
-    detail = 'offset closure not found'
-    for mnode in maps:
-        clo = pm.closure_of(mnode['node']['args'][0])
-        if clo is None or not any(n.get('k') == 'binary' and n.get('op') == '*' for n in walk(clo['body'])):
-            continue
-        bnd = {}
-        bind_pattern(g, clo['params'][0], mnode['p'], bnd)
-        hv = [k for k, v in bnd.items() if v == 'time_hour']
-        mv = [k for k, v in bnd.items() if v == 'time_minute']
-        sv = [k for k, v in bnd.items() if v == 'tok']
-        if not (hv and mv and sv):
-            detail = f'bindings {bnd}'
-            continue
-        it = Interp(g.ev)
-        try:
-            vals = {(s, h, m): it.run(clo['body'], {sv[0]: s, hv[0]: h, mv[0]: m}) for s in (43, 45) for h in (0, 7, 23) for m in (0, 30, 59)}
-            okv = all(v == (1 if s == 43 else -1) * (h * 60 + m) for (s, h, m), v in vals.items())
-            detail = 'sign * (hours * 60 + minutes) on 18 samples' if okv else f'{list(vals.items())[:3]}'
-        except Unanalysable as e:
-            detail = str(e)
-    rep.check(R, 'time_offset|minutes', okv, detail, f'offset is not sign * (hours * 60 + minutes): {detail}', loc)
+    # time_offset: sign * (hours * 60 + minutes) — decided by R9b on the values the function computes
 
 
 def r10_visitor_identity(rep, facts):
